@@ -82,6 +82,25 @@ def main(tier):
                         res[name] = bool(o[1]) if o[0] == "ok" else False
                         raised = raised or (o[2] if o[0] != "ok" else "")
                     events.append(dict(op="Order", cls=cls, call="%s %s vs %s %s" % (x, u, y, v), sign=sign, raised=raised, **res))
+            # (2b) every unit against the base unit, both ways round, with amounts 3e-4 apart (close, but far beyond rounding): a row whose
+            # two directions disagree makes a < b and b < a both true for amounts in between
+            for u in us[1:]:
+                for p_, q_ in ((us[0], u), (u, us[0])):
+                    for eps in (3e-4, -3e-4):
+                        x = 3.0
+                        y = db.Convert(qt, p_, q_, x) * (1.0 + eps)
+                        bx, by = db.Convert(qt, p_, us[0], x), db.Convert(qt, q_, us[0], y)
+                        if abs(bx - by) <= 1e-5 * max(abs(bx), abs(by), 1e-300) or abs(bx - by) > 1e-3 * max(abs(bx), abs(by)):
+                            continue            # (offset units: 3e-4 of the amount is not 3e-4 of the base amount)
+                        sign = -1 if bx < by else 1
+                        A, B = Scalar(cat, x, p_), Scalar(cat, y, q_)
+                        res = {}
+                        raised = ""
+                        for name, op in OPS:
+                            o = P.outcome(op, A, B)
+                            res[name] = bool(o[1]) if o[0] == "ok" else False
+                            raised = raised or (o[2] if o[0] != "ok" else "")
+                        events.append(dict(op="Order", cls="Scalar", call="%r %s vs %r %s (close amounts)" % (x, p_, y, q_), sign=sign, raised=raised, **res))
             # across quantity types
             other = rng.choice([q for q in qts if q != qt])
             A, B = Scalar(1.0, us[0]), Scalar(1.0, units_of[other][0])
@@ -90,6 +109,21 @@ def main(tier):
                 name, op = rng.choice(OPS)
                 o = P.outcome(op, X, Y)
                 events.append({"op": "OrderAcross", "cls": cls, "call": "%s %s %s" % (us[0], name, units_of[other][0]), "raised": o[2] if o[0] != "ok" else ""})
+        # the same amount written with different splits into whole part and fraction
+        FV = FractionValue
+        for a_, b_, sign in ((FV(1, Fraction(1, 2)), FV(1.5), 0), (FV(0, Fraction(3, 2)), FV(1, Fraction(1, 2)), 0), (FV(1, Fraction(2, 4)), FV(1, Fraction(1, 2)), 0),
+                             (FV(1, Fraction(1, 2)), FV(2), -1), (FV(2, Fraction(1, 4)), FV(1, Fraction(3, 4)), 1), (FV(1.25), FV(1, Fraction(1, 4)), 0),
+                             (FV(-1, Fraction(1, 2)), FV(-0.5), 0)):
+            for X, Y, sg, cls in ((a_, b_, sign, "FractionValue"), (b_, a_, -sign, "FractionValue"),
+                                  (FractionScalar("length", value=a_, unit="m"), FractionScalar("length", value=b_, unit="m"), sign, "FractionScalar"),
+                                  (FractionScalar("length", value=b_, unit="m"), FractionScalar("length", value=a_, unit="m"), -sign, "FractionScalar")):
+                res = {}
+                raised = ""
+                for name, op in OPS:
+                    o = P.outcome(op, X, Y)
+                    res[name] = bool(o[1]) if o[0] == "ok" else False
+                    raised = raised or (o[2] if o[0] != "ok" else "")
+                events.append(dict(op="Order", cls=cls, call="%r vs %r" % (X, Y), sign=sg, raised=raised, **res))
         # ordering against the empty quantity and the 'Unknown' quantity type: different quantity types as well
         from barril.units import GetUnknownQuantity
         specials = [("empty", Scalar.CreateEmptyScalar(3.0)), ("unknown", Scalar(GetUnknownQuantity("dogs"), 2.0)),
